@@ -44,3 +44,12 @@ Fixpoint all2 {A B} (f : A -> B -> bool) (l1 : list A) (l2 : list B) : bool :=
   | x :: r, y :: s => f x y && all2 f r s
   | _, _ => false
   end.
+
+(* ---------- EER ---------- *)
+From SA Require Export Model.Eer.
+Definition eer64 := eer succ64 pred64 64.
+Definition eer_agree (tol_t tol_e : Q) (s : scores) (t e : Q) : bool :=
+  match eer64 s with
+  | Ret (t', e') => Qabs_le t' t tol_t && Qabs_le e' e tol_e
+  | Raise => false
+  end.
